@@ -78,7 +78,7 @@ class Baton:
             self.to_main.release()
 
 
-def run_session(pcfg, save_filename, save_config, load, schedule, events, limit=None, past_time=None):
+def run_session(pcfg, save_filename, save_config, load, schedule, events, limit=None, past_time=None, omen_yield=False):
     """runs the real CrackingSession.run under the baton; returns dict(out, ended, consumed)"""
     common.use_impl()
     import lib_guesser.cracking_session as cs
@@ -121,6 +121,16 @@ def run_session(pcfg, save_filename, save_config, load, schedule, events, limit=
                     baton.kbd_done()
             super().__init__(target=wrapped, args=args, daemon=True)
 
+    import lib_guesser.omen.markov_cracker as mcmod
+    orig_mc_next = mcmod.MarkovCracker.next_guess
+
+    def mc_next_wrapper(self_):
+        # optional extra yield point: before every call of the OMEN generator (also the last one, which finds the level exhausted)
+        baton.main_yield()
+        return orig_mc_next(self_)
+
+    if omen_yield:
+        mcmod.MarkovCracker.next_guess = mc_next_wrapper
     pqmod.PcfgQueue.next = next_wrapper
     pcfg.print_guess = print_wrapper
     session.report.print_status = status_wrapper
@@ -139,6 +149,7 @@ def run_session(pcfg, save_filename, save_config, load, schedule, events, limit=
                 ended = 'stopped'
     finally:
         pqmod.PcfgQueue.next = orig_next
+        mcmod.MarkovCracker.next_guess = orig_mc_next
         cs.threading.Thread = orig_thread
         cs.time.sleep = orig_sleep
         builtins.input = orig_input
